@@ -151,7 +151,8 @@ def gen_wide(env, tier, prop):
     """extents around the 255/256 and 65535/65536 boundaries of the array cube's coordinate dtype, in either
     dimension position, on both cubes (sparse cell report)"""
     rnd, gen = env.rnd, env.gen
-    exts = [255, 256, 257, 300, 65535, 65536, 65537] if tier == "thorough" else [256, 257, 300, 65536, 65537]
+    # 129..255 and 32769..65535: extents whose coordinates fit the narrow dtype but whose doubles / sums do not
+    exts = [129, 200, 255, 256, 257, 300, 32769, 65535, 65536, 65537] if tier == "thorough" else [129, 200, 255, 256, 257, 300, 40000, 65536, 65537]
     for ext in exts:
         for order in (0, 1):
             for rep in range(1 if tier == "quick" else 4):
@@ -174,12 +175,17 @@ def gen_wide(env, tier, prop):
         for dims in ([d1], [d1, d2], [d2, d1]):
             case = cb.Case(dims, None, None, None, False, ("nan",), "count")
             env.run_xcube(prop, case, explicit=False, dtype=dt, note="inferred shape, dtype maximum present")
-    # a single wide dimension
+    # a single wide dimension, rows in the lower and in the upper half of the extent, every shared aggregate
     for ext in exts:
-        n = 6
-        wide = np.array([rnd.choice([0, 255, 256, ext - 1]) % ext for _ in range(n)], dtype=np.int64)
-        case = cb.Case([wide], (ext,), None, None, False, ("nan",), "count")
-        env.run_xcube(prop, case, dtype=np.int64)
+        for func in cb.SHARED:
+            n = 7
+            wide = np.array([rnd.choice([0, 1, ext // 2 - 1, ext // 2, ext // 2 + 1, ext - 2, ext - 1]) % ext for _ in range(n)], dtype=np.int64)
+            fact = None if func == "count" else gen.fact(n, K=rnd.choice([1, 1, 2]))
+            ignore = rnd.random() < 0.5
+            fmt = rnd.choice([("nan",), ("tuple", 0)])      # (the sparse cell report cannot tell a plain replacement from a value)
+            case = cb.Case([wide], (ext,), fact, gen.weights(n), ignore, fmt, func)
+            env.run_xcube(prop, case, dtype=rnd.choice([np.int64, np.int64, np.uint16]))
+            env.run_ccube(prop, case)
 
 
 def gen_c04(env, tier):
@@ -215,10 +221,17 @@ def gen_c05(env, tier):
     rnd, gen = env.rnd, env.gen
     n_cases = 220 if tier == "quick" else 3500
     n_resid = 70 if tier == "quick" else 1200
-    for q in range(n_cases + n_resid):
+    n_axes = 60 if tier == "quick" else 1000
+    for q in range(n_cases + n_resid + n_axes):
         nd = rnd.choice([1, 2, 2, 3])
         case = gen.shared_case(nd=nd, maxrows=8)
-        if q >= n_cases:
+        if q >= n_cases + n_resid:
+            # dimensions with columns (rows x 2 or rows x 3 cells): "rows" and "cells" are different numbers there, and
+            # the stored row ids of a re-expressed dimension can total exactly the row count without any row being common
+            nd = rnd.choice([1, 2])
+            extra = [rnd.choice([(2,), (2,), (3,)]) if d == 0 or rnd.random() < 0.3 else () for d in range(nd)]
+            case = gen.shared_case(nd=nd, maxrows=8, extra=extra, pad=False)
+        elif q >= n_cases:
             # rounding residue: a cell on a common category is a margin minus the other cells; with weights that are not
             # binary fractions that difference is 1e-16 rather than 0 for a cell without rows. Which cells are missing
             # must not depend on that, i.e. on which category happens to be stored as common.
@@ -331,6 +344,10 @@ def stat_case(env, func, nd=None, extra=None, maxrows=8):
         fact["oned"] = False
     if func in ("min", "max"):
         fact["oned"] = True
+    if func == "stddev" and fact["dtype"] == "float" and rnd.random() < 0.3:
+        # measurements far from zero (timestamps, ids, money in cents): the spread is tiny next to the mean, which is
+        # where a variance computed as E[x^2] - E[x]^2 loses every digit while the two-pass definition does not
+        fact["offset"] = rnd.choice([10 ** 6, 2 ** 30, 1700000000, 2 ** 40, -3 * 10 ** 9])
     w = None
     if func in ("stddev", "covariance") and rnd.random() < 0.5:
         w = gen.weights(n, small=True)
@@ -397,21 +414,37 @@ def gen_c14(env, tier):
         commons = [rnd.choice(cb.common_choices(rnd, d, e)) for d, e in zip(dims, extents)]
         idims = [canonical(env.iindex, d, c) for d, c in zip(dims, commons)]
         cube = env.ccube(idims)
-        delivered = []
+        delivered, inner = [], []
         exc = None
+        item = lambda c, r: {"c": [int(x) for x in c], "rows": [int(x) + 1 for x in np.asarray(r).tolist()]}   # noqa: E731
+        # one walk in eight is re-entered: at its k-th delivery the callback walks the same cube object once more
+        # (a custom aggregate asking the cube a question); both walks must still deliver the complete multiset
+        nest_at = rnd.randint(1, 6) if rnd.random() < 0.125 else 0
+        calls = [0]
+
+        def outer(c, r):
+            delivered.append(item(c, r))
+            calls[0] += 1
+            if calls[0] == nest_at:
+                if rnd.random() < 0.5:
+                    cube.walk(lambda c2, r2: inner.append(item(c2, r2)))
+                else:
+                    inner.extend(item(c2, r2) for c2, r2 in cube.interactions())
         try:
-            if rnd.random() < 0.5:
+            if rnd.random() < 0.5 and not nest_at:
                 for c, r in cube.interactions():
-                    delivered.append({"c": [int(x) for x in c], "rows": [int(x) + 1 for x in np.asarray(r).tolist()]})
+                    delivered.append(item(c, r))
             else:
-                cube.walk(lambda c, r: delivered.append({"c": [int(x) for x in c], "rows": [int(x) + 1 for x in np.asarray(r).tolist()]}))
+                cube.walk(outer)
         except Exception as e:  # noqa
             exc = "%s: %s" % (type(e).__name__, e)
-        env.rec.tid += 1
-        ev = {"tid": env.rec.tid, "prop": "C14", "kind": "walk", "n": n, "dims": [d.tolist() for d in dims],
-              "commons": [int(c) for c in commons], "delivered": delivered, "exc": exc is not None}
-        env.rec.events.append(ev)
-        env.rec.meta[ev["tid"]] = {"cube": "ccube.walk", "dims": [d.tolist() for d in dims], "commons": commons, "exc": exc}
+        for what, lst in (("", delivered),) + ((("nested ", inner),) if nest_at and calls[0] >= nest_at else ()):
+            env.rec.tid += 1
+            ev = {"tid": env.rec.tid, "prop": "C14", "kind": "walk", "n": n, "dims": [d.tolist() for d in dims],
+                  "commons": [int(c) for c in commons], "delivered": lst, "exc": exc is not None}
+            env.rec.events.append(ev)
+            env.rec.meta[ev["tid"]] = {"cube": "ccube.walk", "dims": [d.tolist() for d in dims], "commons": commons, "exc": exc,
+                                       "note": what + ("walk re-entered at delivery %d" % nest_at if nest_at else "")}
 
 
 def gen_c03_all(env, tier):
@@ -456,7 +489,12 @@ def gen_c14_all(env, tier):
     gen_c14_long(env, tier)
 
 
-GENS = {"C02": gen_c02_all, "C03": gen_c03_all, "C04": gen_c04, "C05": gen_c05_all, "C13": gen_c13_all, "C14": gen_c14_all, "C18": gen_c18}
+def gen_c04_all(env, tier):
+    gen_c04(env, tier)
+    gen_wide(env, tier, "C04")
+
+
+GENS = {"C02": gen_c02_all, "C03": gen_c03_all, "C04": gen_c04_all, "C05": gen_c05_all, "C13": gen_c13_all, "C14": gen_c14_all, "C18": gen_c18}
 
 
 def judge(chk, rec, own):
@@ -487,7 +525,15 @@ def judge(chk, rec, own):
                         if t != ev["tid"]:
                             continue
                         f = rec.floats.get((t, q))
-                        if ev["func"] in ("stddev", "corrcoef"):
+                        off = abs(float(((m.get("case") or {}).get("fact") or {}).get("offset", 0) or 0))
+                        if ev["func"] == "stddev" and off:
+                            # translated data: the inputs are exact, the two-pass definition is accurate to a few ulps of
+                            # the *magnitude* per deviation (delta), i.e. to about 2*sigma*delta*n + n*delta^2 in the variance
+                            nrows = max(1, len(ev.get("vals") or [1]))
+                            delta = 1e-12 * (off + cb_total(m))
+                            tv = 1e-9 * max(1.0, float(x)) + 2 * float(x) ** 0.5 * delta * nrows + nrows * delta * delta
+                            ok = f is not None and f == f and abs(f * f - float(x)) <= tv
+                        elif ev["func"] in ("stddev", "corrcoef"):
                             ok = f is not None and f == f and abs(f * f - float(x)) <= tol * max(1.0, 2 * abs(f))
                         else:
                             ok = f is not None and f == f and abs(f - float(x)) <= tol
